@@ -1520,6 +1520,15 @@ class Interp(object):
             import os as _os
             r = getattr(_os.path, text[8:])(*args)
             return r
+        if isinstance(callee, FuncRef) and callee.fi.decorators and not getattr(callee, 'raw', False):
+            # a function wrapped by one of the repository's own decorators (a module-level function that takes the function and returns
+            # its replacement): what is called is the replacement
+            wrapped = self._decorated(callee.fi, node, frame)
+            if wrapped is not None:
+                a = list(callee.pre_args) + list(args)
+                if callee.bound is not None:
+                    a = [callee.bound] + a
+                return self.apply(text, wrapped, a, kwargs, node, frame)
         if isinstance(callee, FuncRef):
             a = list(callee.pre_args) + list(args)
             if callee.bound is not None:
@@ -1574,6 +1583,35 @@ class Interp(object):
             raise Raise('TypeError', node, self.where(node, frame))
         self.path.unknown.append(text)
         return Top('call')
+
+    def _decorated(self, fi, node, frame):
+        cache = self.__dict__.setdefault('_decorated_cache', {})
+        if fi in cache:
+            return cache[fi]
+        cache[fi] = None
+        decs = []
+        for d in fi.decorators:
+            name = d.split('(')[0]
+            g = fi.module.funcs.get(name) if '.' not in name and '(' not in d else None
+            if g is not None:
+                decs.append(g)
+            elif name in ('staticmethod', 'classmethod', 'property', 'abc.abstractmethod', 'abstractmethod', 'contextlib.contextmanager', 'contextmanager',
+                          'functools.wraps', 'wraps', 'functools.lru_cache', 'six.add_metaclass') or name.endswith('.setter') or name.endswith('.getter'):
+                continue
+            else:
+                return None
+        if not decs:
+            return None
+        cur = FuncRef(fi)
+        cur.raw = True
+        for g in reversed(decs):
+            cur = self.call_function(g, [cur], {}, node, frame)
+            if isinstance(cur, FuncRef) and cur.fi is fi:
+                cur.raw = True
+        if not isinstance(cur, (FuncRef, PartialCall, NativeMethod)):
+            raise Unsupported('decorator of %s returns %r: not a callable the evaluator can follow' % (fi.qualname, cur))
+        cache[fi] = cur
+        return cur
 
     def imported_call(self, qual, args, kwargs, node, frame):
         if qual == 'copy.deepcopy':
@@ -2792,7 +2830,24 @@ class Interp(object):
                         pass
             return f
 
-        return self.run_paths(fi.node.body, mk, label or fi.qualname)
+        body = fi.node.body
+        if any(('.' not in d.split('(')[0] and '(' not in d and d.split('(')[0] in fi.module.funcs) for d in fi.decorators) and not fi.node.args.vararg \
+                and not fi.node.args.kwarg:
+            # the function is wrapped by one of the repository's own decorators: what a caller gets is the wrapper, so that is what is
+            # folded (a call of the function by its parameters, which apply() routes through the decorator)
+            call = ast.Call(func=ast.Name(id='__decorated_target__', ctx=ast.Load()), args=[ast.Name(id=p_, ctx=ast.Load()) for p_ in fi.params], keywords=[])
+            ret = ast.Return(value=call)
+            for n_ in ast.walk(ret):
+                ast.copy_location(n_, fi.node)
+            ast.fix_missing_locations(ret)
+            body = [ret]
+            mk0 = mk
+
+            def mk():
+                f = mk0()
+                f.locals['__decorated_target__'] = FuncRef(fi)
+                return f
+        return self.run_paths(body, mk, label or fi.qualname)
 
 
 def _deepcopy_data(v):
